@@ -1344,3 +1344,65 @@ def case_normalised_selectors(ctx, rid, rels=None, what=""):
             else:
                 ctx.ok(rid, uses[0], f"{q}: every string test of `{key}` goes through the same case normalisation ({len(uses)} use(s))")
     return n
+
+
+def per_ensemble_engine_table(ctx, rid, what=""):
+    """Each picked ensemble gets the engines of its own entry of `simulation.ensemble_engines`.
+    In prep_md_items the store `picked[e]["eng_idx"] = {...}` sits in a loop over the job's
+    ensembles; the engine names it maps are iterated from `ensemble_engines[<index of e>]` with
+    the same index expression that collects the names handed to assign_engines - not from the
+    job-wide list (a zero swap would then run both halves with the first listed engine, i.e. the
+    [0-] engine also for [0+])."""
+    from ..flow import deref, flow_of
+    from ..loader import AnalysisError
+    from ..util import REPEX
+    f = ctx.tree.func(REPEX, "REPEX_state.prep_md_items")
+    fl = flow_of(f)
+    n = 0
+    for st in walk_local(f):
+        if not (isinstance(st, ast.Assign) and len(st.targets) == 1 and isinstance(st.targets[0], ast.Subscript)):
+            continue
+        t = st.targets[0]
+        if not (isinstance(t.slice, ast.Constant) and t.slice.value == "eng_idx"):
+            continue
+        n += 1
+        loops = [p for p in _loops_of(st) if isinstance(p, ast.For) and isinstance(p.target, ast.Name)]
+        lv = next((p.target.id for p in loops if any(isinstance(x, ast.Name) and x.id == p.target.id for x in ast.walk(t))), None)
+        if lv is None:
+            ctx.bad(rid, st, "the engine table of a picked ensemble is not stored per ensemble of the job (no loop variable in the target)" + what, construct="eng_idx store outside the ensemble loop")
+            continue
+        v = st.value
+        its = []
+        if isinstance(v, ast.DictComp) and len(v.generators) == 1:
+            its = [v.generators[0].iter]
+        elif isinstance(v, ast.Call) and v.args and isinstance(v.args[0], (ast.GeneratorExp, ast.ListComp)) and len(v.args[0].generators) == 1:
+            its = [v.args[0].generators[0].iter]
+        if not its:
+            raise AnalysisError(f"{rid}: the eng_idx entry is built by `{short(v, 50)}`, not by a comprehension over engine names (cannot decide)")
+        it, _ = deref(fl, its[0], fl.cfg.node_of(st)) if isinstance(its[0], ast.Name) else (its[0], None)
+        ok = isinstance(it, ast.Subscript) and any(isinstance(x, ast.Name) and x.id == lv for x in ast.walk(it.slice))
+        if ok:
+            base, _b = deref(fl, it.value, fl.cfg.node_of(st)) if isinstance(it.value, ast.Name) else (it.value, None)
+            ok = "ensemble_engines" in ast.unparse(base)
+        if ok:
+            # the same index expression as where the names for assign_engines are collected
+            coll = [a for a in walk_local(f) if isinstance(a, ast.AugAssign) and isinstance(a.value, ast.Subscript) and ast.unparse(a.value.value) == ast.unparse(it.value)]
+            if coll and any(ast.unparse(a.value.slice).replace(next((p.target.id for p in _loops_of(a) if isinstance(p, ast.For) and isinstance(p.target, ast.Name)), lv), lv) != ast.unparse(it.slice) for a in coll):
+                ctx.bad(rid, st, f"the engine table of ensemble `{lv}` is built from `{short(it, 40)}` while the engines booked for the job were collected from another entry of ensemble_engines: an engine that was not booked is used{what}", construct="eng_idx: other index than the booking")
+            else:
+                ctx.ok(rid, st, f"picked[{lv}]['eng_idx'] maps the engines of ensemble_engines[{ast.unparse(it.slice)}] - the ensemble's own entry")
+        else:
+            ctx.bad(rid, st, f"the engine table of a picked ensemble is built from `{short(it, 40)}`, not from that ensemble's own entry of simulation.ensemble_engines: every ensemble of the job gets the job-wide engine list, and a move takes the first listed engine - in a [0-]<->[0+] swap both halves then run, and are weighted, with the [0-] engine{what}", construct=f"eng_idx built from {short(it, 40)}")
+    if n == 0:
+        raise AnalysisError(f"{rid}: no store of the per-ensemble engine table (eng_idx) in prep_md_items")
+    return n
+
+
+def _loops_of(node):
+    out = []
+    p = getattr(node, "_parent", None)
+    while p is not None and not isinstance(p, (ast.FunctionDef, ast.AsyncFunctionDef)):
+        if isinstance(p, (ast.For, ast.While)):
+            out.append(p)
+        p = getattr(p, "_parent", None)
+    return out
